@@ -707,6 +707,7 @@ retrieve(struct decoder_state *restrict ds, struct bitstream *bs)
           }
 
           DUMP(k);
+          VERIF_POINT(SYMBOL_FAST, (k << 16) | s);
 
           if (unlikely(IS_EOB(s))) {
             rs->run = run;
@@ -760,6 +761,7 @@ retrieve(struct decoder_state *restrict ds, struct bitstream *bs)
           }
 
           DUMP(k);
+          VERIF_POINT(SYMBOL_SLOW, (k << 16) | s);
 
           if (unlikely(IS_EOB(s))) {
           eob:
